@@ -55,15 +55,15 @@ theorem guard_dynamic (c : Ctx) : boundedPanic "list.Dynamic" c = !boundedB c :=
 /-! ### leaves -/
 
 /-- Text / RichText (either wrap mode), any scanned lines, any constraint. -/
-theorem text_size_le (m : TextMode) (hm : m.sizeStrict = true) (c : Ctx) (lines : List (List Cell)) :
+theorem text_size_le (m : TextMode) (hm : m.sizeOK) (c : Ctx) (lines : List (List Cell)) :
     ∃ s, drawText exact m c lines = .ok s ∧ s.w ≤ c.maxW ∧ s.h ≤ c.maxH ∧
       s.buf.length = s.w.toNat * s.h.toNat := by
   obtain ⟨s, h, hw, hh, _, hs⟩ := drawText_ok m c lines
   have hle := sizeLoop_le c.maxW c.maxH lines 0 0 (UInt16.le_iff_toNat_le.2 (Nat.zero_le _))
     (UInt16.le_iff_toNat_le.2 (Nat.zero_le _))
   refine ⟨s, h, ?_, ?_, by rw [hs, Nat.mul_comm]⟩
-  · rw [hw, findContainerSize, hm]; exact hle.1
-  · rw [hh, findContainerSize, hm]; exact hle.2
+  · rw [hw, hm.2, findContainerSize, hm.1]; exact hle.1
+  · rw [hh, hm.2, findContainerSize, hm.1]; exact hle.2
 
 /-- TextField: `Max.Width × 1`, or the zero surface for a zero constraint; never a panic. -/
 theorem field_size_le (c : Ctx) (chars : List Cell) :
@@ -124,7 +124,7 @@ theorem dynChildCtx_unbounded (cursor : Bool) (c : Ctx) : boundedB (dynChildCtx 
 
 section
 variable (tm : Bool → Nat → TextMode) (rm : Bool → TextMode)
-  (htm : ∀ hard st, (tm hard st).sizeStrict = true) (hrm : ∀ hard, (rm hard).sizeStrict = true)
+  (htm : ∀ hard st, (tm hard st).sizeOK) (hrm : ∀ hard, (rm hard).sizeOK)
 include htm hrm
 
 mutual
